@@ -26,8 +26,8 @@ def run(ctx, rep):
 def reader(prog, rep, tag):
     P = "C12.read"
     b = prog.async_body("<EepromRange as Read>::read")
-    pr = Prov(b, follow_all={"Ord::min", "num::saturating_sub"})
-    gm = [c for c in b.calls_to("slice::get_mut") if has_root(pr.of_operand(c.args[1]), "via", "Ord::min")]
+    pr = Prov(b, follow_all={"Ord::min", "cmp::min", "num::saturating_sub"})
+    gm = [c for c in b.calls_to("slice::get_mut") if any(x[0] == "via" and x[1].endswith("::min") for x in pr.of_operand(c.args[1]))]
     ok = len(gm) == 1
     d = {}
     if ok:
